@@ -25,6 +25,7 @@ RULE = (
     'local name) sequence of every surviving selector and the reported mapping must equal what the model resolves; a rule using an '
     'undeclared prefix must be gone. '
     'Non-trivial: >= 2 namespace operations of different kinds with a namespaced selector alive; distinct by history.'
+    ' Ops also: a rule given as text to an @media rule of the sheet (read with the namespaces of the sheet), namespaceRule.cssText = with another prefix / URI in both error modes, re-binding to the default prefix while a default exists; scenarios for list deletion, later declarations of a prefix and hex-escaped prefixes.'
 )
 ASSUMPTIONS = [
     'selector meaning is read from Selector.seq ((URI, local name) tuples), as named in the property anchors',
